@@ -66,6 +66,39 @@ Theorem C25_stored_fields_are_the_blocks_fields : forall relaxed req proh block 
 Proof. exact stored_fields. Qed.
 Print Assumptions C25_stored_fields_are_the_blocks_fields.
 
+(* --- pack / parse --- *)
+(* every entry list a parse stores consists of storable entries: token name in the table's spelling (or as
+   written), id = lookup of that name, value NUL-free, trimmed, both at most 65534 bytes *)
+Theorem C25_parsed_entries_storable : forall relaxed req proh block r,
+  h_parse relaxed req proh block = Some r -> Forall stor (hr_entries r).
+Proof. exact parsed_entries_stor. Qed.
+Print Assumptions C25_parsed_entries_storable.
+
+(* packing ANY list of storable single-line entries gives bytes that the field loop reads back as that list *)
+Theorem C25_reread_packed_entries : forall relaxed req es,
+  Forall stor es -> Forall (fun e => single_line (he_value e)) es ->
+  h_block_fields relaxed req (h_pack es) = Some es.
+Proof. exact reread_pack. Qed.
+Print Assumptions C25_reread_packed_entries.
+
+(* parse (pack (stored fields)) = stored fields, through the whole of HttpHeader::parse including the
+   Content-Length stage (dropped, sanitised and kept Content-Length entries are re-accepted unchanged).
+   PARTIAL: restricted to results whose values contain no CR/LF, i.e. no obs-fold left inside a value (what
+   Http::One::Parser's unfolding pass guarantees for messages read from the wire). For values that still
+   contain a fold the round trip is checked by correspondence and the oracle only. *)
+Theorem C25_pack_parse_roundtrip_partial : forall relaxed req proh block r,
+  h_parse relaxed req proh block = Some r ->
+  Forall (fun e => single_line (he_value e)) (hr_entries r) ->
+  exists r', h_parse relaxed req proh (h_pack (hr_entries r)) = Some r' /\ hr_entries r' = hr_entries r.
+Proof. exact pack_parse_roundtrip. Qed.
+Print Assumptions C25_pack_parse_roundtrip_partial.
+
+(* the model's linear-time line pass is ClenModel's (C26) line pass *)
+Theorem C25_line_pass_is_clen_model : forall relaxed req ln cont,
+  h_proc_line relaxed req ln cont = proc_line relaxed req ln cont.
+Proof. exact h_proc_line_eq. Qed.
+Print Assumptions C25_line_pass_is_clen_model.
+
 (* --- rejections --- *)
 Theorem C25_rejects_nul : forall relaxed req proh block,
   In 0 block -> h_parse relaxed req proh block = None.
@@ -140,3 +173,12 @@ Example C25_ex_cr_only :
   exists ls ln, ref_lines block = Some ls /\ In ln ls /\ forallb is_cr ln = true /\ 2 <= lenN ln /\
     h_parse true true false block = None.
 Proof. exists [[65;58;32;98;13]; [13;13]; [13]], [13;13]. vm_compute. repeat split; try discriminate. right; left; reflexivity. Qed.
+(* "Host: a\r\nContent-Length: 5, 5\r\n\r\n" (relaxed reply): accepted, Content-Length sanitised to "5" and moved
+   last; the hypotheses of the round-trip theorem hold and the packed bytes are as expected *)
+Example C25_ex_roundtrip :
+  let block := [72;111;115;116;58;32;97;13;10; 67;111;110;116;101;110;116;45;76;101;110;103;116;104;58;32;53;44;32;53;13;10; 13;10] in
+  exists r, h_parse true false false block = Some r /\
+    map (fun e => (he_name e, he_value e)) (hr_entries r) = [([72;111;115;116], [97]); (name_content_length, [53])] /\
+    forallb (fun e => forallb (fun c => negb (c =? 13) && negb (c =? 10)) (he_value e)) (hr_entries r) = true /\
+    h_pack (hr_entries r) = [72;111;115;116;58;32;97;13;10; 67;111;110;116;101;110;116;45;76;101;110;103;116;104;58;32;53;13;10].
+Proof. eexists. vm_compute. repeat split. Qed.
